@@ -139,8 +139,9 @@ def Code.toks (value : Toks) : Code → Toks
       tq sp ") { Some ( __map_value ) = > {" ++ body.toks value ++ tq sp "} None = > {" ++
       push.toks value ++ tq sp "} }"
   | .set v preds rest node =>
-    tq cs "{ let __set_coll : : : std : : vec : : Vec < _ > = ( & (" ++ v.toks value ++
-      tq cs ") ) . into_iter ( ) . collect ( ) ;" ++ preds.predToks value 0 ++
+    tq cs "{ let __set_src = & (" ++ v.toks value ++
+      tq cs ") ; let __set_coll : : : std : : vec : : Vec < _ > = __set_src . into_iter ( ) . collect ( ) ;" ++
+      preds.predToks value 0 ++
       tq cs "let __set_preds : & [ & dyn : : std : : ops : : Fn ( usize ) - > bool ] = & [" ++
       sepBy (tq cs ",") ((List.range preds.toList.length).map fun i => tq cs s!"& __set_pred_{i}") ++
       tq cs "] ;" ++ supportPath cs ++ tq cs "set_match ( __set_coll . len ( ) ," ++
